@@ -8,7 +8,7 @@ using namespace gx;
 // two-Jacobian operations: all four subsets, one entry per operation (keeps the path count per entry small)
 #define CO(x) (x).coeffs()
 #define DEF2(FN, ARGS, CALL) template<class S,class Tg> void FN(hx::Rec<S>& R){ COMMON ARGS \
-    Jac A0,B0,A1,B1; auto v0=CALL(A0,B0); auto v1=CALL(N_,N_); auto v2=CALL(A1,N_); auto v3=CALL(N_,B1); \
+    Jac A0,B0,A1,B1; { int pc=0; for(Jac* Jp : {&A0,&B0,&A1,&B1}) for(int i=0;i<Jp->rows();i++)for(int j=0;j<Jp->cols();j++) (*Jp)(i,j)=R.var("jpoison"+std::to_string(pc++), 3000.0+pc); } auto v0=CALL(A0,B0); auto v1=CALL(N_,N_); auto v2=CALL(A1,N_); auto v3=CALL(N_,B1); \
     hx::eqm(R,"val_none",CO(v1),CO(v0)); hx::eqm(R,"val_a",CO(v2),CO(v0)); hx::eqm(R,"val_b",CO(v3),CO(v0)); \
     hx::eqm(R,"Ja_alone",A1,A0); hx::eqm(R,"Jb_alone",B1,B0); \
     hx::eqm(R,"argX",X.coeffs(),x0); hx::eqm(R,"argY",Y.coeffs(),y0); hx::eqm(R,"argt",t.coeffs(),t0); }
